@@ -78,3 +78,17 @@ package header
 //@   property C16
 //@   ensures err == nil && uint64(uint64(eh.RawHeader.Height) + 1) == uint64(untrst.RawHeader.Height) ==> bytesEq(untrst.RawHeader.ValidatorsHash, eh.RawHeader.NextValidatorsHash) && bytesEq(untrst.RawHeader.LastBlockID.Hash, eh.Commit.BlockID.Hash)
 //@   ensures err == nil && uint64(uint64(eh.RawHeader.Height) + 1) != uint64(untrst.RawHeader.Height) ==> commitLightTrustingOK(deref(eh.ValidatorSet), eh.RawHeader.ChainID, untrst.Commit, light.DefaultTrustLevel.Numerator, light.DefaultTrustLevel.Denominator)
+
+// ---------------------------------------------------------------------------------------------
+// C15: the extended header a bridge node builds for a block carries the DAH of exactly the square it
+// was given (dahOf: celestia-app's DAH construction, assumed), and the consensus header, commit and
+// validator set it was given.
+//@ pure func dahOf(eds *rsmt2d.ExtendedDataSquare) da.DataAvailabilityHeader
+//@ extern github.com/celestiaorg/celestia-app/v9/pkg/da.NewDataAvailabilityHeader
+//@   ensures err == nil ==> result0 == dahOf(eds)
+
+//@ func MakeExtendedHeader
+//@   property C15
+//@   requires h != nil
+//@   ensures err == nil ==> result0 != nil && result0.DAH != nil && isFresh(result0) && result0.Commit == comm && result0.ValidatorSet == vals && result0.RawHeader == deref(h)
+//@   ensures err == nil && eds != nil ==> deref(result0.DAH) == dahOf(eds)
